@@ -242,11 +242,20 @@ package database
 //@   ensures[C03.collect-all] forall d int :: (d in scores) ==> (exists k int :: 0 <= k && k < len(result) && result[k].Command == &db.Commands[d])
 //@   ensures[C03.collect-score] pq == nil && options.PipelineBoost <= 0.0 ==> (forall k int :: 0 <= k && k < len(result) ==> result[k].Score == scores[cmdIdx(db, result[k].Command)])
 //@ loop 1
-//@   invariant fresh(results) && len(results) == $n && gatesOK(results, options)
-//@   invariant forall d int :: (d in $visited) ==> (exists k int :: 0 <= k && k < len(results) && results[k].Command == &db.Commands[d])
-//@   invariant pq == nil && options.PipelineBoost <= 0.0 ==> (forall k int :: 0 <= k && k < len(results) ==> results[k].Score == scores[cmdIdx(db, results[k].Command)])
-//@   invariant forall k int :: 0 <= k && k < len(results) ==> inDB(db, results[k].Command) && results[k].Score >= 0.0 && (cmdIdx(db, results[k].Command) in scores) && (cmdIdx(db, results[k].Command) in $visited)
+//@   invariant fresh(docIDs) && fresh(results) && len(results) == 0 && len(docIDs) == $n && cap(docIDs) == len(scores) && cap(results) == len(scores) && (cap(docIDs) > 0 && cap(results) > 0 ==> base(docIDs) != base(results))
+//@   invariant forall k int :: 0 <= k && k < len(docIDs) ==> (docIDs[k] in $visited) && (docIDs[k] in scores)
+//@   invariant forall d int :: (d in $visited) ==> (exists k int :: 0 <= k && k < len(docIDs) && docIDs[k] == d)
+//@   invariant forall a, b int :: 0 <= a && a < b && b < len(docIDs) ==> docIDs[a] != docIDs[b]
+//@ loop 2
+//@   invariant fresh(docIDs) && fresh(results) && len(results) == $i && len(docIDs) == len(scores) && cap(results) == len(scores) && gatesOK(results, options) && (cap(docIDs) > 0 && cap(results) > 0 ==> base(docIDs) != base(results))
+//@   invariant forall a, b int :: 0 <= a && a < b && b < len(docIDs) ==> docIDs[a] < docIDs[b]
+//@   invariant forall k int :: 0 <= k && k < len(docIDs) ==> (docIDs[k] in scores)
+//@   invariant forall d int :: (d in scores) ==> (exists k int :: 0 <= k && k < len(docIDs) && docIDs[k] == d)
+//@   invariant forall k int :: 0 <= k && k < len(results) ==> results[k].Command == &db.Commands[docIDs[k]]
+//@   invariant forall k int :: 0 <= k && k < len(results) ==> inDB(db, results[k].Command)
 //@   invariant distinctCmds(results)
+//@   invariant forall k int :: 0 <= k && k < len(results) ==> results[k].Score >= 0.0
+//@   invariant pq == nil && options.PipelineBoost <= 0.0 ==> (forall k int :: 0 <= k && k < len(results) ==> results[k].Score == scores[docIDs[k]])
 
 // ---------------------------------------------------------------------------
 // Post-scoring stages. The three stage functions are verified inlined into
